@@ -92,6 +92,20 @@ LocalOp(i, name, uni, rn) ==
           /\ Step(IF canon THEN last' @@ [nfac |-> CanonFac(mode, rn, psi, P1), jw |-> jw, canon |-> TRUE]
                   ELSE last' @@ [jw |-> jw, canon |-> FALSE])
 
+\* apply_local_op(i, op, unitary=None, renormalize) with a two-site operator op = O1 (x) O2 given as an array (no JW
+\* strings for arrays): theta is split again by from_full (SVD); canonical_form iff the operator is not unitary
+LocalOp2(i, n1, n2, rn) ==
+    /\ Live /\ "apply_local_op2" \in Ops /\ ~Inf(R) /\ i >= 0 /\ i + 1 < NL(R)
+    /\ n1 \in OpNames(R.kinds[i + 1], R.cons) \cup {"Id"} /\ n2 \in OpNames(R.kinds[i + 2], R.cons)
+    /\ LET canon == ~(IsUnitary(n1) /\ IsUnitary(n2))
+           P1 == ApplyOp1(ApplyOp1(psi, i + 1, OpMat(R.kinds[i + 1], n1)), i + 2, OpMat(R.kinds[i + 2], n2))
+       IN /\ ~TIsZero(P1) /\ AbsLE(P1, 400)
+          /\ (rn => canon)
+          /\ R' = Frame(R) /\ psi' = P1 /\ nrm' = nrm
+          /\ mode' = IF canon THEN CanonMode(mode, R) ELSE (IF mode = "raw" THEN "loose" ELSE mode)
+          /\ last' = [op |-> "apply_local_op2", i |-> i, n1 |-> n1, n2 |-> n2, renormalize |-> rn]
+          /\ Step(last' @@ [nfac |-> IF canon THEN CanonFac(mode, rn, psi, P1) ELSE <<1, 1>>, canon |-> canon])
+
 \* apply_product_op(ops, unitary=None, renormalize): converts to form B, multiplies every tensor, no JW strings
 OpSeq(kind, cons) ==
     CASE kind = "H" -> IF cons = "U1" THEN <<"Sigmaz", "Id", "Sigmaz", "Sp">> ELSE <<"Sigmax", "Sigmaz", "Id", "Sigmay", "Sm">>
@@ -308,7 +322,10 @@ DoLocalOp == Live /\ \E i \in 0..(MaxL - 1), name \in {"Sigmaz", "Sigmax", "Sigm
                 uni \in {"true", "auto", "false"}, rn \in BOOLEAN :
                 /\ (uni = "false" => (rn /\ name \in {"Sigmaz", "N", "Sz"}))     \* "false" only adds the forced canonical_form
                 /\ (rn => (uni = "false" \/ (uni = "auto" /\ ~IsUnitary(name))))   \* renormalize only matters with canonical_form
+                /\ (nops >= 1 => ((i + Seed) % 2 = 0 /\ uni # "false" /\ ~rn))        \* later steps: a thinner alphabet
                 /\ LocalOp(i, name, uni, rn)
+DoLocalOp2 == Live /\ \E i \in 0..(MaxL - 2), n1 \in {"Id", "Sigmaz", "Sigmax", "Sp", "N", "C", "Sz"}, n2 \in {"Sigmaz", "Sigmay", "Sm", "N", "Cd", "Sz"}, rn \in BOOLEAN :
+                (nops >= 1 => (i = 0 /\ ~rn)) /\ LocalOp2(i, n1, n2, rn)
 DoProductOp == Live /\ \E v \in 0..1, uni \in {"true", "auto"}, rn \in BOOLEAN : (uni = "true" => ~rn) /\ ProductOp(v, uni, rn)
 DoLocalTerm == Live /\ \E term \in TermsFor(R), canon \in BOOLEAN, rn \in BOOLEAN : (rn => canon) /\ LocalTerm(term, canon, rn)
 DoSwap == Live /\ \E i \in 0..(MaxL - 2) : Swap(i)
@@ -322,9 +339,9 @@ DoCanon == Live /\ \E rn \in BOOLEAN : Canon(rn)
 DoInversion == Live /\ Inversion
 DoRoll == Live /\ \E sh \in {-2, -1, 1, 2, 3} : Roll(sh)
 DoEnlarge == Live /\ \E f \in 2..3 : Enlarge(f)
-DoExtract == Live /\ \E first \in (0 - 2)..3, lst \in (0 - 1)..5 : Extract(first, lst)
+DoExtract == Live /\ \E first \in (0 - 2)..3, lst \in (0 - 1)..5 : (nops >= 1 => first \in {0 - 1, 0}) /\ Extract(first, lst)
 
-Next9 == DoStart \/ DoLocalOp \/ DoProductOp \/ DoLocalTerm \/ DoSwap \/ DoPermute \/ DoAdd \/ DoGroup \/ DoGroupSplit
+Next9 == DoStart \/ DoLocalOp \/ DoLocalOp2 \/ DoProductOp \/ DoLocalTerm \/ DoSwap \/ DoPermute \/ DoAdd \/ DoGroup \/ DoGroupSplit
          \/ DoEnlargeChi \/ DoCompress \/ DoCanon \/ DoInversion \/ DoRoll \/ DoEnlarge \/ DoExtract
 Spec9 == Init /\ [][Next9]_vars
 
